@@ -504,3 +504,34 @@ def rule_deps(ctx):
 
 
 RULES.append(("C01.p", "the mechanisms chronological execution rests on: queue order (C20.a/b), cancelled heads skipped (C09.a), untorn time reads (C15.a/b)", rule_deps))
+
+
+def rule_deadline_impls(ctx):
+    """C01.c trusts `time = deadline.into_time(now)`. The two implementations in the crate: a relative deadline is now + duration,
+    an absolute one is the given time itself (a sign error or swapped operand here moves every relative deadline)."""
+    P = ctx.prog
+    b = ctx.body("<std::time::Duration as time::Deadline>::into_time")
+    if b is not None:
+        rets = K.ret_assigns(b)
+        ok = len(rets) == 1 and rets[0].is_term and rets[0].callee == "std::ops::Add::add"
+        if ok:
+            a0, a1 = b.origins(rets[0].args()[0], rets[0]), b.origins(rets[0].args()[1], rets[0])
+            ok = a0 == frozenset([("arg", 2)]) and a1 == frozenset([("arg", 1)])
+        ctx.ob("deadline|duration-is-now-plus-self", ok, "Duration::into_time(self, now) = now + self", rets)
+    found = False
+    for n in ("<tai_time::TaiTime as time::Deadline>::into_time", "<time::MonotonicTime as time::Deadline>::into_time"):
+        m = P.body(n)
+        if m is None:
+            continue
+        found = True
+        rets = K.ret_assigns(m)
+        ok = len(rets) == 1 and not rets[0].is_term and rets[0].node["r"]["r"] == "use" and m.origins(rets[0].node["r"]["o"], rets[0]) == frozenset([("arg", 1)])
+        ctx.ob("deadline|absolute-is-self", ok, "MonotonicTime::into_time(self, _) = self", rets)
+    if not found:
+        ctx.missing("impl Deadline for MonotonicTime")
+    impls = [i for i in P.impls if i.get("trait") and norm(i["trait"]).endswith("time::Deadline")]
+    ctx.ob("deadline|two-impls", len(impls) == 2, "the crate implements Deadline for Duration and MonotonicTime only (found %d)" % len(impls),
+           ["impl %s %s:%s" % (i.get("self_head"), i.get("file"), i.get("line")) for i in impls])
+
+
+RULES.append(("C01.q", "Deadline::into_time implementations (relative = now + d, absolute = itself)", rule_deadline_impls))
